@@ -44,6 +44,10 @@ def run(repo: Repo, tier: str, res: CheckResult, seed: int = 0) -> None:
     clone_discipline(repo, res)
     write_inventory(repo, res)
     facade_caches(repo, res)
+    # the process-wide lru_cache of normalize_type is keyed by typing's equality (Union[A, B] == Union[B, A]): it is
+    # history-free only if the normal form does not depend on the order/spelling the hint was first seen with
+    from .c15 import ordering_rule
+    ordering_rule(repo, repo.mod("type_tools/normalize_type"), res, prop="C11")
     res.assumptions = list(ASSUMPTIONS)
 
 
